@@ -18,6 +18,9 @@ pub use toplevel::{check_file, check_file_with_env};
 pub struct Typer {
     pub uni: InPlaceUnificationTable<TypeVar>,
     pub(crate) constraints: Vec<Constraint>,
+    /// Operand types of built-in arithmetic operators (`-x`, `a - b`, `a * b`, `a / b`, `a + b`),
+    /// checked once the constraints of the definition are solved.
+    pub(crate) arithmetic_operands: Vec<(&'static str, bool, crate::tast::Ty)>,
     pub hir_table: name_resolution::HirTable,
     pub results: TypeckResultsBuilder,
 }
@@ -28,6 +31,7 @@ impl Typer {
         Self {
             uni: InPlaceUnificationTable::new(),
             constraints: Vec::new(),
+            arithmetic_operands: Vec::new(),
             hir_table,
             results,
         }
@@ -35,5 +39,16 @@ impl Typer {
 
     pub(crate) fn push_constraint(&mut self, constraint: Constraint) {
         self.constraints.push(constraint);
+    }
+
+    /// Records that `ty` is the operand type of the arithmetic operator `op`
+    /// (`allow_string`: the operator is `+`, which also concatenates strings).
+    pub(crate) fn push_arithmetic_operand(
+        &mut self,
+        op: &'static str,
+        allow_string: bool,
+        ty: crate::tast::Ty,
+    ) {
+        self.arithmetic_operands.push((op, allow_string, ty));
     }
 }
